@@ -63,7 +63,6 @@ probes! {
     rnd_tie => "probe.round_tie",
     rnd_cut => "probe.round_exponent_bits_cut_off",
     rnd_cut_differs => "probe.round_cut_zone_rule_vs_value_differ",
-    rnd_cut_alt_accepted => "probe.round_cut_zone_value_nearest_accepted",
     rnd_deep_sticky => "probe.round_sticky_only_from_lower_limb",
     poison_nonzero => "probe.poison_while_nonzero",
     poison_zero_partner => "probe.poison_with_zero_partner",
@@ -206,8 +205,14 @@ impl Stats {
         self.digest = self.digest.rotate_left(7) ^ o.digest.wrapping_mul(0x9E37_79B9_7F4A_7C15);
     }
     pub fn named(&self, prefix: &str) -> BTreeMap<String, u64> {
+        self.named_range(prefix, 0, PROBE_NAMES.len())
+    }
+    pub fn named_range(&self, prefix: &str, lo: usize, hi: usize) -> BTreeMap<String, u64> {
         let mut m = BTreeMap::new();
         for (i, n) in PROBE_NAMES.iter().enumerate() {
+            if i < lo || i >= hi {
+                continue;
+            }
             if let Some(rest) = n.strip_prefix(prefix) {
                 m.insert(rest.to_string(), self.c[i]);
             }
